@@ -71,6 +71,113 @@ func TypeSwitches(info *types.Info, body ast.Node, nested bool) []*SwitchInfo {
 		out = append(out, si)
 		return true
 	})
+	out = append(out, assertChains(info, body, nested)...)
+	sort.SliceStable(out, func(i, j int) bool { return out[i].Node.Pos() < out[j].Node.Pos() })
+	return out
+}
+
+// assertIf recognises `if x, ok := subj.(T); ok { … }` (also with `_` for x, and `if _, ok := …`).
+func assertIf(info *types.Info, ifs *ast.IfStmt) (subj ast.Expr, typ ast.Expr) {
+	as, ok := ifs.Init.(*ast.AssignStmt)
+	if !ok || len(as.Lhs) != 2 || len(as.Rhs) != 1 {
+		return nil, nil
+	}
+	ta, ok := ast.Unparen(as.Rhs[0]).(*ast.TypeAssertExpr)
+	if !ok || ta.Type == nil {
+		return nil, nil
+	}
+	okID, isID := as.Lhs[1].(*ast.Ident)
+	cond, isCond := ast.Unparen(ifs.Cond).(*ast.Ident)
+	if !isID || !isCond || okID.Name == "_" {
+		return nil, nil
+	}
+	if info.Defs[okID] == nil && info.Uses[okID] == nil {
+		return nil, nil
+	}
+	o := info.Defs[okID]
+	if o == nil {
+		o = info.Uses[okID]
+	}
+	if info.Uses[cond] != o {
+		return nil, nil
+	}
+	return ta.X, ta.Type
+}
+
+// assertChains presents a chain of comma-ok type assertions on one subject — `if a, ok := v.(*A); ok {…} else if b, ok :=
+// v.(*B); ok {…} else {…}`, or two or more such ifs that follow one another in a block — as a SwitchInfo, so that
+// rules written for `switch x := v.(type)` see the same thing in either spelling. The clause of each type is a
+// synthetic *ast.CaseClause holding the if body.
+func assertChains(info *types.Info, body ast.Node, nested bool) []*SwitchInfo {
+	subjKey := func(e ast.Expr) interface{} {
+		// the switched value, not the (possibly shadowing) binder: `ttype, ok := ttype.(*T)` re-declares the name, but the
+		// right-hand side still refers to the outer variable
+		if id, ok := ast.Unparen(e).(*ast.Ident); ok {
+			if o := info.Uses[id]; o != nil {
+				return o
+			}
+		}
+		return ExprString(e)
+	}
+	type group struct {
+		si   *SwitchInfo
+		n    int
+		subj ast.Expr
+	}
+	groups := map[interface{}]*group{}
+	var order []*group
+	add := func(g *group, ifs *ast.IfStmt, typ ast.Expr) {
+		if isNilExpr(info, typ) {
+			return
+		}
+		cc := &ast.CaseClause{Case: ifs.Pos(), List: []ast.Expr{typ}, Colon: ifs.Body.Lbrace, Body: ifs.Body.List}
+		if t := info.TypeOf(typ); t != nil {
+			k := t.String()
+			if NamedOf(t) != nil {
+				k = TypeName(t)
+			}
+			if !g.si.Cases[k] {
+				g.n++
+			}
+			g.si.Cases[k] = true
+			if g.si.Clauses[k] == nil {
+				g.si.Clauses[k] = cc
+			}
+		}
+	}
+	ast.Inspect(body, func(n ast.Node) bool {
+		if _, ok := n.(*ast.FuncLit); ok && !nested && n != body {
+			return false
+		}
+		ifs, ok := n.(*ast.IfStmt)
+		if !ok {
+			return true
+		}
+		subj, typ := assertIf(info, ifs)
+		if subj == nil {
+			return true
+		}
+		k := subjKey(subj)
+		g := groups[k]
+		if g == nil {
+			g = &group{si: &SwitchInfo{Node: ifs, Subject: info.TypeOf(subj), Cases: map[string]bool{}, Clauses: map[string]*ast.CaseClause{}}, subj: subj}
+			groups[k] = g
+			order = append(order, g)
+		}
+		add(g, ifs, typ)
+		// a final plain else of an else-if chain is the default arm
+		if blk, ok := ifs.Else.(*ast.BlockStmt); ok {
+			g.si.HasDefault = true
+			g.si.Default = &ast.CaseClause{Case: blk.Pos(), Colon: blk.Lbrace, Body: blk.List}
+		}
+		return true
+	})
+	var out []*SwitchInfo
+	for _, g := range order {
+		if g.n >= 2 {
+			out = append(out, g.si)
+		}
+	}
 	return out
 }
 
@@ -89,6 +196,32 @@ func isNilExpr(info *types.Info, e ast.Expr) bool {
 func AssertChain(info *types.Info, body ast.Node, subjectIs func(types.Type) bool) map[string]bool {
 	out := map[string]bool{}
 	ast.Inspect(body, func(n ast.Node) bool {
+		if ts, ok := n.(*ast.TypeSwitchStmt); ok {
+			// `switch x := v.(type) { case *A: … }` says the same as a chain of assertions
+			var subj ast.Expr
+			switch a := ts.Assign.(type) {
+			case *ast.AssignStmt:
+				if ta, ok := a.Rhs[0].(*ast.TypeAssertExpr); ok {
+					subj = ta.X
+				}
+			case *ast.ExprStmt:
+				if ta, ok := a.X.(*ast.TypeAssertExpr); ok {
+					subj = ta.X
+				}
+			}
+			if subj != nil {
+				if st := info.TypeOf(subj); st != nil && subjectIs(st) {
+					for _, cl := range ts.Body.List {
+						for _, e := range cl.(*ast.CaseClause).List {
+							if t := info.TypeOf(e); t != nil && !isNilExpr(info, e) {
+								out[TypeName(t)] = true
+							}
+						}
+					}
+				}
+			}
+			return true
+		}
 		ta, ok := n.(*ast.TypeAssertExpr)
 		if !ok || ta.Type == nil {
 			return true
